@@ -30,7 +30,8 @@ RULE = ("case = (hop count 1..3, 4..6 nodes, number of circuits, next_hop_timeou
         "loss/dup/reorder/long delays, position of the misbehaving party: responder / middle relay / on-path attacker, explicit "
         "fault list on the k-th answer: bit flip in key / auth / identifier / circuit id / candidates, identifier or circuit-id "
         "swap between pending handshakes, replay of an earlier answer, duplicate answer, own ephemeral key with a correct "
-        "HMAC). Non-trivial = a handshake in which an answer was lost, duplicated, late (after a retry) or manipulated; "
+        "HMAC; optionally every circuit ends in a required exit the relays have never met, so that the relay's extend handler waits "
+        "0.05-4 s in a simulated DHT peer lookup). Non-trivial = a handshake in which an answer was lost, duplicated, late (after a retry) or manipulated; "
         "distinct by (hops, position, fault kind, hop index, outcome).")
 COMPONENTS = {"real": ["TunnelCommunity create/created/extend/extended handlers and retry caches", "TunnelCrypto (X25519, HMAC, "
                        "HKDF via ipv8_rust_tunnels)", "PythonCryptoEndpoint", "RequestCache time-outs under virtual time",
@@ -42,7 +43,8 @@ ASSUMPTIONS = ["X25519, HMAC and HKDF in ipv8_rust_tunnels are trusted",
                "anyone else accepted keys)"]
 REACH = ["hop_appended_honest", "keys_equal_checked", "retry_happened", "answer_ignored_by_originator", "dup_answer", "fault:flip_key",
          "fault:flip_auth", "fault:flip_ident", "fault:flip_cid", "fault:flip_cand", "fault:swap_ident", "fault:swap_cid", "fault:swap_cid_exit",
-         "fault:replay_old", "fault:subst_key", "crafted_answer_rejected", "subst_accepted_but_underivable", "hops:3"]
+         "fault:replay_old", "fault:subst_key", "crafted_answer_rejected", "subst_accepted_but_underivable", "hops:3",
+         "extend_waits_for_peer_lookup"]
 
 KINDS = ["flip_key", "flip_auth", "flip_ident", "flip_cid", "flip_cand", "swap_ident", "swap_cid", "swap_cid_exit", "replay_old",
          "subst_key", "dup_answer"]
@@ -53,6 +55,13 @@ def cases(tier: str, base_seed: int):  # noqa: ANN201
     for hops in (1, 2, 3):
         n += 1
         yield {"seed": base_seed + n, "knobs": {}, "hops": hops, "nodes": 5, "circuits": 2, "nht": 10, "who": None, "faults": []}
+    # extends to a required exit the relay has never met: the relay's on_extend suspends in a (simulated, slow) DHT peer lookup
+    # while duplicated / retried extend datagrams arrive
+    for hops in (2, 3):
+        for dup, delay, nht in ((0.5, 0.15, 10), (0.3, 1.5, 1), (0.0, 0.4, 10)):
+            n += 1
+            yield {"seed": base_seed + n, "knobs": {"dup": dup, "lat_jit": 0.02}, "hops": hops, "nodes": 5, "circuits": 3, "nht": nht,
+                   "who": None, "faults": [], "blind": delay}
     for who in ("node", "wire"):
         for kind in KINDS:
             for hops in (1, 2, 3):
@@ -77,9 +86,12 @@ def cases(tier: str, base_seed: int):  # noqa: ANN201
         if mode in ("craft", "both"):
             for _ in range(rng.choice([1, 2, 5])):
                 faults.append({"kind": rng.choice(KINDS), "nth": rng.randrange(0, 8), "bit": rng.randrange(256)})
-        yield {"seed": seed, "knobs": knobs, "hops": rng.choice([1, 2, 2, 3, 3]), "nodes": rng.choice([4, 5, 6]),
-               "circuits": rng.choice([1, 2, 4]), "nht": rng.choice([1, 2, 5, 10]),
-               "who": rng.choice(["node", "wire"]) if faults else None, "faults": faults}
+        case = {"seed": seed, "knobs": knobs, "hops": rng.choice([1, 2, 2, 3, 3]), "nodes": rng.choice([4, 5, 6]),
+                "circuits": rng.choice([1, 2, 4]), "nht": rng.choice([1, 2, 5, 10]),
+                "who": rng.choice(["node", "wire"]) if faults else None, "faults": faults}
+        if case["hops"] > 1 and rng.random() < 0.3:
+            case["blind"] = rng.choice([0.05, 0.15, 0.5, 1.5, 4.0])
+        yield case
 
 
 def _old_terminating_ids(rcv, not_this: int, world) -> list:  # noqa: ANN001
@@ -478,8 +490,26 @@ def execute(case: dict) -> dict:  # noqa: C901, PLR0915
             net.filters.append(wire_filter)
         o = tw.nodes[0]
         circs = []
+        blind = case.get("blind") if hops > 1 else None
+        required = None
+        if blind:
+            from ipv8.peer import Peer
+            x = tw.nodes[-1]
+
+            class SlowDHT:
+                async def peer_lookup(self, mid, peer=None) -> None:  # noqa: ANN001
+                    world.probe("extend_waits_for_peer_lookup")
+                    await asyncio.sleep(blind)
+            for node in tw.nodes[1:-1]:
+                node.ov.dht_provider = SlowDHT()
+                xp = node.ov.network.get_verified_by_public_key_bin(x.ov.my_peer.public_key.key_to_bin())
+                if xp is not None:
+                    node.ov.network.remove_peer(xp)
+                    node.ov.candidates.pop(xp, None)
+            required = Peer(x.ov.my_peer.public_key.key_to_bin(), x.address)
         for _ in range(case["circuits"]):
-            circs.append(o.call(o.ov.create_circuit, hops))
+            circs.append(o.call(o.ov.create_circuit, hops, required_exit=required) if required is not None
+                         else o.call(o.ov.create_circuit, hops))
             await asyncio.sleep(case.get("stagger") or rng.choice([0.0, 0.05, 1.0]))
         # let handshakes, retries and give-ups play out (circuit_timeout is 60 s)
         for _ in range(14):
@@ -534,7 +564,7 @@ def execute(case: dict) -> dict:  # noqa: C901, PLR0915
             tw.uninstall_probes()
     # honest fault-free non-vacuity
     if not faults and not case["knobs"].get("loss") and not case["knobs"].get("dup") and not case["knobs"].get("tail_p") \
-            and st.get("ready", 0) == 0:
+            and st.get("ready", 0) == 0 and not (case.get("blind") and case["blind"] + 0.5 >= case["nht"]):
         c.violate("non_vacuity", "no_circuit_ready_in_fault_free_run", f"{case['circuits']} circuits of {hops} hops, none READY")
     world.trace.event("c08", None, (len(appended), len(crafted), st.get("ready")))
     c.sample = {"hops": hops, "who": who, "faults": faults[:4], "appended": [(e["idx"], e["kinds"]) for e in appended[:8]],
